@@ -69,6 +69,14 @@ class Project:
         self.files = dict(files)
         return changed
 
+    def touch(self, paths) -> None:
+        """New mtime, same contents (mypy re-validates such files by hash and rewrites their meta)."""
+        self.clock += 2
+        for p in paths:
+            fp = os.path.join(self.root, p)
+            if os.path.exists(fp):
+                os.utime(fp, (self.clock, self.clock))
+
     def targets(self) -> list[str]:
         # a .py shadowed by a sibling stub is not listed (would be a duplicate module)
         return sorted(p for p in self.files if not (p.endswith(".py") and p + "i" in self.files) and p not in getattr(self, "unlisted", ()))
